@@ -795,6 +795,11 @@ class SigmaCorrelationRule(SigmaRuleBase, ProcessingItemTrackingMixin):
             if not self.generate:
                 rule.disable_output()
 
+        # The alias definitions refer to rules as well (possibly by another identifier than the rule
+        # list: name vs. id)
+        for alias in self.aliases:
+            alias.resolve_rule_references(rule_collection)
+
     def flatten_rules(
         self: Self, include_correlations: bool = True
     ) -> list[SigmaRule | SigmaCorrelationRule]:
